@@ -311,6 +311,7 @@ func (h *H) genTxn(m *ledger.Model) *txnPlan {
 			outs = append(outs, fix.Out{Addr: h.randAddr(), Coins: uint64(i + 1)})
 		}
 		class += "+oversize"
+		h.R.Count("gen.oversize", 1)
 	}
 	t := h.Chain.MakeTxn(in, outs)
 	if strings.HasPrefix(class, "hard:bad-sig") {
